@@ -9,6 +9,7 @@ import MysticVerif.Proofs.Combinators
 import MysticVerif.Props.C17.Ext
 import MysticVerif.Props.C17.Pen
 import MysticVerif.Props.C17.Cpl
+import MysticVerif.Props.C17.Seq
 import Mathlib.Tactic.Linarith
 import Mathlib.Algebra.Order.Ring.Abs
 import Mathlib.Algebra.Order.BigOperators.Group.List
